@@ -370,9 +370,19 @@ _RULE_EXTRA = {
 }
 _RULE_EXTRA["C01"] += ("; on 2 in 12 case indices the same table once more with a spilling run size and one spill file cut short in the middle of a field "
                        "between the sort and the merge (from the Close of the CSV reader; op ingest-torn-spill): refused, or stored completely; history steps run with -n 1..5 in turn")
+_RULE_EXTRA["C04"] = ("; every other command-line case (op diff-cli, tag earlier=...) makes the two diffed commits on top of an earlier history of the branch, "
+                      "one of six shapes in turn: the older file committed before without a primary key / without and then with the key / with the key extended by a column, "
+                      "the newer file committed before without and with the key, both files before under other keys, the same two commits made once before "
+                      "(the key column leads and is unique, so the rows sort alike under every one of these keys): the diff of the last two commits is judged as any other")
 _RULE_EXTRA["C02"] = ("; a sixth configuration with 1..5 workers in turn by the case index, history steps with -n 1..5 in turn; on 1 in 6 case indices also a table of "
                       "fixed-width records ingested in a child process whose RLIMIT_FSIZE cuts every spill file at or near a row boundary (op ids-spill-write-fault): "
-                      "the id of the in-memory ingest, or an error")
+                      "the id of the in-memory ingest, or an error"
+                      "; on 1 in 12 case indices one more history (tag column-names) over a table whose columns carry generated names (letters, digits, spaces, dots, "
+                      "quotes, semicolons, bars, commas, a non-ASCII letter) and whose third key column is named after the first two - their names joined by a separator "
+                      "(two histories in three by the comma, the list separator of -p and of the configuration; else one of ', ' ';' '|' ' ' '_' '-' or nothing): the history "
+                      "starts keyed on the combined column or on the two (alone or inside a longer key) and its first change is the key that reads the same when written "
+                      "out (tag key-reads-the-same), set in the configuration or given with -p in turn; such names go to -p as a quoted CSV record and into the "
+                      "configuration by `config unset --all` + `config add` per name; judged by the clauses of every history")
 _RULE_EXTRA["C19"] += ("; on 4 in 12 case indices the same table also loaded from a CSV file by SortFile with the key given by column names (tag sortfile; the re-use "
                        "cases of index 9 too); on 4 in 12 also loaded while, for a stretch of rows, no spill file can be created and the caller carries on after the "
                        "AddRow errors (op sort-fault): every row whose AddRow returned nil comes out once per key in key order in both outputs, and the fault model "
